@@ -31,8 +31,15 @@ class Ctx:
         shutil.rmtree(self.scratch, ignore_errors=True)
 
 
-def sh(cmd, cwd=None, env=None, timeout=None, stdin=None, stdout=None):
-    p = subprocess.run(cmd, cwd=cwd, env=env, timeout=timeout, stdin=stdin,
+def _limit_memory():
+    # a change of the code can make an operation allocate without end: the harness then dies with
+    # "out of memory" at 20 GiB of address space (reported as a run cut short) instead of taking the machine down
+    import resource
+    resource.setrlimit(resource.RLIMIT_AS, (20 << 30, 20 << 30))
+
+
+def sh(cmd, cwd=None, env=None, timeout=None, stdin=None, stdout=None, limit=False):
+    p = subprocess.run(cmd, cwd=cwd, env=env, timeout=timeout, stdin=stdin, preexec_fn=_limit_memory if limit else None,
                        stdout=stdout if stdout is not None else subprocess.PIPE,
                        stderr=subprocess.STDOUT if stdout is None else subprocess.PIPE, text=True)
     return p.returncode, (p.stdout if stdout is None else (p.stderr or ''))
@@ -268,7 +275,7 @@ def run_one(ctx, exe, run, seed, tier, tag, replay_ops=None):
     os.makedirs(work, exist_ok=True)
     t = time.time()
     try:
-        rc, out = sh(cmd, cwd=work, env=env, timeout=run.get('timeout', 1500) * (4 if tier == 'thorough' else 1))
+        rc, out = sh(cmd, cwd=work, env=env, timeout=run.get('timeout', 1500) * (4 if tier == 'thorough' else 1), limit=not run.get('race'))
     except subprocess.TimeoutExpired:
         rc, out = 124, 'harness timed out'
     shutil.rmtree(work, ignore_errors=True)
